@@ -13,6 +13,10 @@ import vlib
 vlib.universe('dag',4,k=3,w=3,cap=12)
 vlib.universe('cyc',3,maxe=9,k=2,w=2,l=1,cap=6)
 vlib.universe('cyc',4,maxe=6,k=2,w=2,l=1,cap=4)
+vlib.universe('dag',4,k=2,w=3,cap=12,zero=True)
+vlib.universe('cyc',3,maxe=9,k=2,w=2,l=1,cap=6,zero=True)
+vlib.euler_universe(3,9,3,400)
+vlib.euler_universe(4,6,2,24)
 "
 PYTHONPATH=/repo /venv/bin/python -W ignore -c "import flowpaths" 2>/dev/null
 echo "setup ok"
